@@ -92,6 +92,30 @@ def fresh_message_obligations(ctx: Any, R: str) -> List[Ob]:
     return obs
 
 
+
+def qu_answer_table(ctx: Any, R: str, probes_only: bool = False) -> List[Ob]:
+    """Decision table of the answer to a QU question (shared with C09.SHAPE for the probe rows: conflict detection rests on
+    the owner answering a probe at once, by unicast to the prober, whether or not the record was multicast recently)."""
+    prog = ctx.prog
+    obs: List[Ob] = []
+    g = prog.func(QR + '.add_qu_question_response')
+    me = g.params[0]
+    for probe in ((True,) if probes_only else (False, True)):
+        for recent in (False, True):
+            atoms = {f'{me}._is_probe': probe, '._has_mcast_within_one_quarter_ttl()': recent}
+            oc, und = traces(ctx, g, atoms, _bucket_eff(me), loop_bound=1, for_iter=lambda n, e: True)
+            got = {frozenset(strip_ret(t)) for t in oc}
+            want = set()
+            if probe:
+                want.add('UCAST')
+            if not recent:
+                want.add('MCAST_NOW')
+            elif not probe:
+                want.add('UCAST')
+            obs.append(ob(R, g, f'QU question: probe={probe}, multicast within a quarter TTL={recent}', f'answered via {sorted(want)}', got == {frozenset(want)} and not und, f'got {[sorted(x) for x in got]}'))
+    return obs
+
+
 @rule('C11.ROUTE', 'D', expect_min=18)
 def route(ctx: Any) -> List[Ob]:
     """Routing decision tables against the property text: per question, which of
@@ -133,21 +157,7 @@ def route(ctx: Any) -> List[Ob]:
                 want.add('HISTORY')
             obs.append(ob(R, f, f'source port {"other" if ucast_source else "5353"}, {"QU" if qu else "QM"} question', f'routines: {sorted(want)} (QM questions are remembered for duplicate suppression, QU never)', got == {frozenset(want)}, f'got {[sorted(g) for g in got]}'))
     # (b) QU answers
-    g = prog.func(QR + '.add_qu_question_response')
-    me = g.params[0]
-    for probe in (False, True):
-        for recent in (False, True):
-            atoms = {f'{me}._is_probe': probe, '._has_mcast_within_one_quarter_ttl()': recent}
-            oc, und = traces(ctx, g, atoms, _bucket_eff(me), loop_bound=1, for_iter=lambda n, e: True)
-            got = {frozenset(strip_ret(t)) for t in oc}
-            want = set()
-            if probe:
-                want.add('UCAST')
-            if not recent:
-                want.add('MCAST_NOW')
-            elif not probe:
-                want.add('UCAST')
-            obs.append(ob(R, g, f'QU question: probe={probe}, multicast within a quarter TTL={recent}', f'answered via {sorted(want)}', got == {frozenset(want)} and not und, f'got {[sorted(x) for x in got]}'))
+    obs.extend(qu_answer_table(ctx, R))
     obs.extend(mcast_table(ctx, R))
     # (d) sinks
     s = prog.func(QH + '.handle_assembled_query')
